@@ -32,6 +32,14 @@ CHECKS = {
              "loud failure must agree with the Python reference, a null dereference the query never performs is a violation.",
         design="DESIGN.md section 3 C04", technique="exhaustive enumeration of (partial operation, placement, guard) programs x exhaustive event domain, executed generated code vs reference",
         note=NOTE_EDM + " Null links are poisoned Refs (observed, never UB); a crash (signal) of the generated code is reported as a violation."),
+    "C05": dict(
+        text="For every program of the grammar enumeration (C01's quick bounds, three backends), of the partiality set (C04) and of a set whose values come from opaque and "
+             "collection-returning injected C++ functions (about 5000 programs), the compiled job is run over every history of a representative 8-event set: each event "
+             "alone in a fresh job, all 64 ordered pairs incl. (a,a), all 24 permutations of a 4-subset, the full list forwards and backwards (thorough: all 512 ordered "
+             "triples and one leaf deviation per program). Reference-free differential oracle: at every position the rows (and outcome) for event b must equal those of b "
+             "in a fresh job.",
+        design="DESIGN.md section 3 C05", technique="exhaustive enumeration of (program, event history) pairs on the compiled generated code; differential oracle per history position",
+        note=NOTE_EDM + " A faulting event ends its job, histories are cut there. Absolute values are C01's business."),
     "C07": dict(
         text="Explicit-state BFS in which the real process is the state machine: a state is an event history (new executor / attach extended "
              "metadata / translate menu query q on live executor i, where the menu holds succeeding queries and queries failing at each stage that "
